@@ -64,6 +64,7 @@ type runInfo struct {
 	taskKind [][]string        // per node: kind of each task (advertiser, monitor, http, watcher, script)
 	served   []bool            // per node: Serve returned before the end of the run
 	stopAt   int64             // fake time at which the horizon stop was issued (0 = never)
+	startUnixNs int64          // absolute (fake) UNIX time of the run's time zero
 }
 
 // recTask records when a supervised task starts and returns.
@@ -662,6 +663,7 @@ func execPlan(t *testing.T, p *Plan, res *verifsim.Result, oracle func(*runInfo)
 			time.Sleep(time.Duration(p.Offset))
 		}
 		start := time.Now()
+		info.startUnixNs = start.UnixNano()
 		w := newWorld(p, res, start)
 		context.VerifCancelSeed = p.Cancel
 		system.VerifRtnl = w.rtnl
